@@ -292,8 +292,24 @@ func GetAttr(self Object, keyObj Object) (res Object, err error) {
 	return GetAttrString(self, key)
 }
 
+// staticTypeOrNil returns self if it is a type object defined in Go (a
+// built-in type: not created by a class statement), else nil.  Instances
+// of classes are *Type values too (see Type.Alloc): they have no name.
+func staticTypeOrNil(self Object) *Type {
+	t, ok := self.(*Type)
+	if !ok || t.Flags&TPFLAGS_HEAPTYPE != 0 || t.Name == "" {
+		return nil
+	}
+	return t
+}
+
 // SetAttrString
 func SetAttrString(self Object, key string, value Object) (Object, error) {
+	// The dictionaries of built-in (non-heap) types are shared by every
+	// py.Context of the process: like CPython, refuse to change them
+	if t := staticTypeOrNil(self); t != nil {
+		return nil, ExceptionNewf(TypeError, "can't set attributes of built-in/extension type '%s'", t.Name)
+	}
 	// First look in type's dictionary etc for a property that could
 	// be set - do this before looking in the instance dictionary
 	setter := self.Type().NativeGetAttrOrNil(key)
@@ -337,6 +353,9 @@ func SetAttr(self Object, keyObj Object, value Object) (Object, error) {
 
 // DeleteAttrString
 func DeleteAttrString(self Object, key string) error {
+	if t := staticTypeOrNil(self); t != nil {
+		return ExceptionNewf(TypeError, "can't set attributes of built-in/extension type '%s'", t.Name)
+	}
 	// First look in type's dictionary etc for a property that could
 	// be set - do this before looking in the instance dictionary
 	deleter := self.Type().NativeGetAttrOrNil(key)
